@@ -24,7 +24,7 @@ static int rp_fail; static const char* rp_msg;
 #define CANARY_h_forwarding
 extern "C" { int nondet_int(void) {return 0;} unsigned char nondet_uchar(void) {return 0;} }
 #include "spec.c"
-extern "C" { void w_compute_diff7(void) {} void w_compute_diff9(int, int, int, int, int) {} }
+extern "C" { void w_compute_diff7(void) {} void w_compute_diff9(int, int, int, int, int) {} void w_forward(int, int, int, int, int) {} }
 #undef __CPROVER_assert
 #include "abg-diff-utils.cc"
 
